@@ -339,6 +339,7 @@ def run_c17(rep, tier, seed):
             ("worker syncing every 20 ms", "cfg mfs=1000000 sync=20 policy=never", [], 3000),
             ("a client's set is in flight, holding the writer lock, when the owner is dropped", f"cfg mfs=1000000 policy=always interval={far} jitter=3/10", "park-put", 3000),
             ("the worker's merge pass is under way, holding the writer lock, when the owner is dropped", "cfg mfs=1000000 policy=always interval=40 jitter=0/1 tfrag=0/1 tdead=0 frag=0/1 dead=0 small=1099511627776", "park-in-merge", 3000),
+            ("a merge pass has failed at its last step (its new active file could not be created: a foreign file sits at that id) and the foreign file is gone again", "cfg mfs=1000000 policy=never frag=0/1 dead=0 small=1099511627776", "failed-merge", 3000),
             ("worker merging every 30 ms and syncing every 25 ms", "cfg mfs=60 sync=25 policy=always interval=30 jitter=1/1 tfrag=0/1 tdead=0 frag=0/1 dead=0 small=1099511627776", [], 3000),
         ]
     for si, (name, cfg, special, deadline) in enumerate(scenarios):
@@ -354,6 +355,8 @@ def run_c17(rep, tier, seed):
             lines += ["t.park W put.before_publish 1", "t.spawn W put 63 3939", "t.wait W 5000"]
         elif special == "park-in-merge":
             lines += ["t.wait * 8000"]
+        elif special == "failed-merge":
+            lines += ["mkfile d2", "merge", "rmfile d2"]
         else:
             lines += ["sleep 60"]
         i_drop = len(lines)
@@ -397,6 +400,11 @@ def run_c17(rep, tier, seed):
                 if not strip(ans[i]).startswith("err closed"):
                     bad = (i, "err closed", ans[i])
                     break
+            if special == "failed-merge" and not ans[script.index("merge")].startswith("err io"):
+                # the scenario itself did not come about (the pass no longer wants the id the foreign file sits at)
+                rep.violation("correspondence", dict(what=f"drop while {name}: the merge pass did not fail as the scenario needs", script=script, answers=[a[:200] for a in ans],
+                                                     expected="err io", observed=ans[script.index("merge")][:200]))
+                continue
             i = script.index("merge", i_drop)
             if not bad and not ans[i].startswith("err closed"):
                 bad = (i, "err closed", ans[i])
@@ -479,8 +487,9 @@ def run_c18(rep, tier, seed):
         below = "tfrag=7/8 tdead=1099511627776"
         above_bytes = "tfrag=1/1 tdead=50"
         below_bytes = "tfrag=1/1 tdead=5000"
-        in_window = f"window:{hour}-{hour}"
-        out_window = f"window:{(hour + 2) % 24}-{(hour + 2) % 24}"
+        # the hour is filled in when the case is run (a thorough run lasts longer than what is left of an hour)
+        in_window = "window:@IN@"
+        out_window = "window:@OUT@"
         base = f"mfs=1000000 interval={interval} jitter={jn}/{jd} frag=0/1 dead=0 small=1099511627776"
         deadline = int(interval * (1 + jn / jd)) + SLACK
         quiet = max(6 * interval * 2, 600)
@@ -507,14 +516,20 @@ def run_c18(rep, tier, seed):
         else:
             writes, final = ["put 6b 31*10", "put 6b 32*10", "put 6b 33*10", "put 6b 34*10"], "34343434343434343434"
         mcfg = cfg.replace("policy=" + (re.search(r"policy=(\S+)", cfg).group(1)), "policy=" + ("always" if expect == "merge" or "policy=always" in cfg else "never"))
-        script = [cfg, f"dir c{ci}", "open"] + writes + ["canmerge", f"waitfor hint {wait}", "get 6b", "close"]
         mscript = [mcfg, f"dir c{ci}", "open"] + writes + ["canmerge"]
-        shutil.rmtree(root, ignore_errors=True)
-        died = None
-        try:
-            ans = run_harness(["store", "--root", root, "--hang-ms", "30000"], script, preload=False, timeout=120)
-        except Died as d:
-            ans, died = d.answered, d
+        cfg0 = cfg
+        for attempt in range(3):
+            hour = datetime.datetime.now().hour
+            cfg = cfg0.replace("@IN@", f"{hour}-{hour}").replace("@OUT@", f"{(hour + 2) % 24}-{(hour + 2) % 24}")
+            script = [cfg, f"dir c{ci}", "open"] + writes + ["canmerge", f"waitfor hint {wait}", "get 6b", "close"]
+            shutil.rmtree(root, ignore_errors=True)
+            died = None
+            try:
+                ans = run_harness(["store", "--root", root, "--hang-ms", "30000"], script, preload=False, timeout=120)
+            except Died as d:
+                ans, died = d.answered, d
+            if "window" not in cfg or datetime.datetime.now().hour == hour:
+                break       # (else the hour turned while the case ran: what the window contained is not known; run it again)
         mans = run_driver(mscript)
         rep.cov["evaluations"] += len(script)
         rep.count("policy_cases")
